@@ -304,10 +304,11 @@ def load_corpus():
     return out
 
 
-def run_driver(exe, hists):
+def run_driver(exe, hists, audits=None):
     # several driver processes side by side (one world per history, a few milliseconds per block)
     par = 8
-    chunks = [hists[i::par] for i in range(par)]
+    audits = audits or [False] * len(hists)
+    chunks = [list(zip(hists[i::par], audits[i::par])) for i in range(par)]
     results = [None] * par
 
     def work(k):
@@ -316,7 +317,7 @@ def run_driver(exe, hists):
             return
         tmp = "/tmp/verif-lc-%d-%d" % (os.getpid(), k)
         os.makedirs(tmp, exist_ok=True)
-        inp = "\n".join(json.dumps(dict(ops=h), separators=(",", ":")) for h in chunks[k]) + "\n"
+        inp = "\n".join(json.dumps(dict(ops=h, audit=a), separators=(",", ":")) for h, a in chunks[k]) + "\n"
         rc, o, e = vlib.sh([exe, "lifecycle"], inp=inp, timeout=3000, env=dict(os.environ, TMPDIR=tmp))
         import shutil
         shutil.rmtree(tmp, ignore_errors=True)
@@ -382,7 +383,9 @@ def run(ctx):
     n_rand, n_mal = (420, 60) if ctx.quick else (6000, 600)
     hists += [gen_history(r, r.choice([14, 20, 28, 36])) for _ in range(n_rand)]
     hists += [gen_malformed(r, r.choice([8, 16])) for _ in range(n_mal)]
-    rc, outs, e = run_driver(exe, hists)
+    # audit logging must not change any of this: every fourth history runs with EnableAudit on
+    audits = [i % 4 == 3 for i in range(len(hists))]
+    rc, outs, e = run_driver(exe, hists, audits)
     if rc != 0 or len(outs) != len(hists):
         ctx.broken("driver:lifecycle", (e or "")[-1500:])
         return ctx.finish(rule="-")
@@ -414,7 +417,7 @@ def run(ctx):
             if kind == "known":
                 ctx.known(what, known[what]["what"])
                 continue
-            rep = dict(property="C16", driver="lifecycle", history=h, verdict=v, what=what, impl_trace=steps)
+            rep = dict(property="C16", driver="lifecycle", history=h, audit=audits[hn], verdict=v, what=what, impl_trace=steps)
             if kind == "violation":
                 if reported < 3:
                     rep = shrink(ctx, exe, rep, known)
@@ -423,15 +426,15 @@ def run(ctx):
             else:
                 ctx.broken("correspondence:judge_hist", "history %d: %s; ops %s" % (hn, what, json.dumps(h)[:600]))
     ctx.extra["distribution"] = dist
-    ctx.extra["histories"] = dict(corpus=ncorpus, scenarios=nscen, generated=n_rand, malformed=n_mal)
+    ctx.extra["histories"] = dict(corpus=ncorpus, scenarios=nscen, generated=n_rand, malformed=n_mal, with_audit_enabled=sum(audits))
     return ctx.finish(rule="corpus + fixed scenario histories (every chain/service operation x approve/reject with requests before, during, after and across a restart; "
                            "registration approved after the chain froze; permission-only update; rejected logout; rule and role flows) + seeded random governed histories "
                            "(setup prefix, then weighted operations, decisions and requests) + a malformed stream; non-trivial = at least one accepted and one refused "
                            "operation, or both an accepted and a refused/failed request")
 
 
-def run_one(ctx, exe, h, known):
-    rc, outs, e = run_driver(exe, [h])
+def run_one(ctx, exe, h, known, audit=False):
+    rc, outs, e = run_driver(exe, [h], [audit])
     if rc != 0 or len(outs) != 1 or outs[0].get("setup") != "ok":
         return None, None
     vs = judge(ctx, [(h, outs[0]["steps"])], known, tag="C16r")
@@ -446,8 +449,10 @@ def shrink(ctx, exe, rep, known):
     want_kind = classify(rep["verdict"], known)[0]
     want_w = rep["verdict"][1] // 100000 if rep["verdict"][0] == 2 else None
 
+    audit = bool(rep.get("audit"))
+
     def fails(cand):
-        v, _ = run_one(ctx, exe, cand, known)
+        v, _ = run_one(ctx, exe, cand, known, audit)
         if v is None:
             return False
         k, _ = classify(v, known)
@@ -472,7 +477,7 @@ def shrink(ctx, exe, rep, known):
             if chunk == 1:
                 break
             n = min(n * 2, len(h))
-    v, steps = run_one(ctx, exe, h, known)
+    v, steps = run_one(ctx, exe, h, known, audit)
     rep["history"] = h
     if v is not None:
         rep["verdict"], rep["impl_trace"] = v, steps
@@ -489,7 +494,7 @@ def replay(ctx, path):
     vlib.coq_build(["theories/Model/Lifecycle.vo"])
     exe, err = vlib.build_harness("lifecycle")
     known = {f["id"]: f for f in vlib.known_findings() if f["property"] == "C16" and f.get("status") == "open"}
-    v, steps = run_one(ctx, exe, obj["history"], known)
+    v, steps = run_one(ctx, exe, obj["history"], known, bool(obj.get("audit")))
     if v is None:
         print(json.dumps(dict(replay=path, error="driver or judge failed")))
         return 1
